@@ -249,6 +249,8 @@ def p_super(I, n, pos, kw):
 def p_enumerate(I, n, pos, kw):
     start = kw.get("start", pos[1] if len(pos) > 1 else None)
     if start is not None and not (isinstance(start, Sc) and start.e == sym.ZERO):
+        if isinstance(start, Sc) and start.e[0] == "num" and float(start.e[1]).is_integer():
+            return ObjV(None, dict(inner=pos[0], start=int(start.e[1])), tag="enumerate")
         return I.unknown("enumerate-start", n)
     return ObjV(None, dict(inner=pos[0]), tag="enumerate")
 
